@@ -199,6 +199,9 @@ def fractions(quick):
         out += [str(i).zfill(n) for i in range(10 ** n)]
     out += [str(i).zfill(4) for i in range(0, 10 ** 4, 7 if quick else 1)]
     out += [str(i).zfill(6) for i in range(0, 10 ** 6, 997 if quick else 11)]
+    from ref import hazards
+    have = set(out)
+    out += [f for f in ('%06d' % us for us in (hazards.microsecond_alphabet(250) if quick else hazards.microsecond_hazards())) if f not in have]
     return out
 
 
